@@ -1539,7 +1539,22 @@ fn generate(rng: &mut Rng, hist: &mut Hist) -> Vec<Program> {
 // judging
 // ------------------------------------------------------------------------------------------------
 
+/// Without persistent paint (deviation `argument-repainted`) some small programs expand to millions of tokens in the
+/// real code (and in the model, which mirrors it): predicted with the reference run in RSSL-like mode under a small
+/// budget.  (The prediction misses some; generated programs therefore run in a worker process under a time limit.)
+fn predicted_to_explode(p: &Program) -> bool {
+    let mut n0 = RefNotes { step_limit: Some(40_000), ..RefNotes::default() };
+    let r0 = run_reference(p, Dev::from_bits(8 | 16 | 128 | 256), &mut n0);
+    let big = matches!(&r0, Ok(t) if t.len() > 6000);
+    matches!(r0, Err(RefErr::Steps)) || big
+}
+
 fn judge(p: &Program, out: &mut Out, hist: &mut Hist) {
+    judge_with(p, None, out, hist)
+}
+
+/// `real`: the result of the real preprocessor if it was obtained elsewhere (worker process)
+fn judge_with(p: &Program, real: Option<Real>, out: &mut Out, hist: &mut Hist) {
     let req = p.encode();
     if std::env::var("C12_TRACE").is_ok() {
         eprintln!("TRACE {}", req);
@@ -1552,19 +1567,17 @@ fn judge(p: &Program, out: &mut Out, hist: &mut Hist) {
     // Without persistent paint (deviation `argument-repainted`) some small programs expand to millions of tokens
     // in the real code (and in the model, which mirrors it): predict that with the reference run in RSSL-like mode
     // under a small budget and do not run such a program in-process.
-    {
-        let mut n0 = RefNotes { step_limit: Some(40_000), ..RefNotes::default() };
-        let r0 = run_reference(p, Dev::from_bits(8 | 16), &mut n0);
-        let big = matches!(&r0, Ok(t) if t.len() > 6000);
-        if matches!(r0, Err(RefErr::Steps)) || big {
-            hist.add("not-run:expansion-explodes-without-persistent-paint");
-            if std::env::var("C12_TRACE").is_ok() {
-                eprintln!("EXPLODES {}", req);
-            }
-            return;
+    if real.is_none() && predicted_to_explode(p) {
+        hist.add("not-run:expansion-explodes-without-persistent-paint");
+        if std::env::var("C12_TRACE").is_ok() {
+            eprintln!("EXPLODES {}", req);
         }
+        return;
     }
-    let real = run_real(p);
+    let real = match real {
+        Some(r) => r,
+        None => run_real(p),
+    };
     let obs = match &real {
         Real::Ok(t) => format!("ok {}", t.join(" ")).trim_end().to_string(),
         Real::Err(e) => format!("err {}", e),
@@ -1738,6 +1751,28 @@ fn judge_limit(line: &str, p: &Program, out: &mut Out, hist: &mut Hist) {
 
 pub fn run(args: &Args, out: &mut Out) {
     let mut hist = Hist::default();
+    if std::env::var("C12_WORKER").is_ok() {
+        // worker of a batch: the real code only, one answer line per program
+        use std::io::Write;
+        let stdout = std::io::stdout();
+        for line in args.request_lines().unwrap_or_default() {
+            let r = match Program::decode(&line) {
+                Some(p) if !p.files.is_empty() => {
+                    if program_faithful(&p).is_ok() {
+                        run_real(&p)
+                    } else {
+                        // judged as SKIP by the parent, which checks the rendering itself
+                        Real::Err("unfaithful".into())
+                    }
+                }
+                _ => Real::Err("bad-request".into()),
+            };
+            let mut h = stdout.lock();
+            let _ = writeln!(h, "{}", encode_real(&r));
+            let _ = h.flush();
+        }
+        return;
+    }
     if std::env::var("C12_CHILD").is_ok() {
         // child of a resource test: run the real code only and report the size of its output
         for line in args.request_lines().unwrap_or_default() {
@@ -1770,12 +1805,122 @@ pub fn run(args: &Args, out: &mut Out) {
     }
     let mut rng = Rng::new(args.seed);
     let n = args.n.unwrap_or(if args.thorough() { 100000 } else { 2000 });
-    let mut programs = 0u64;
+    let mut all: Vec<Program> = Vec::new();
     for _ in 0..n {
         for p in generate(&mut rng, &mut hist) {
-            judge(&p, out, &mut hist);
-            programs += 1;
+            if program_faithful(&p).is_ok() && predicted_to_explode(&p) {
+                hist.add("not-run:expansion-explodes-without-persistent-paint");
+                continue;
+            }
+            all.push(p);
         }
     }
+    let programs = all.len() as u64;
+    run_batch(&all, out, &mut hist);
     out.stat(&format!("{{\"programs\":{},\"hist\":{}}}", programs, hist.json()));
+}
+
+fn encode_real(r: &Real) -> String {
+    match r {
+        Real::Ok(t) => format!("W\tok\t{}", t.join(" ")),
+        Real::Err(e) => format!("W\terr\t{}", one_line(e)),
+        Real::Panic(m) => format!("W\tpanic\t{}", one_line(m)),
+    }
+}
+
+fn decode_real(l: &str) -> Option<Real> {
+    let mut f = l.splitn(3, '\t');
+    if f.next()? != "W" {
+        return None;
+    }
+    let kind = f.next()?;
+    let rest = f.next().unwrap_or("");
+    Some(match kind {
+        "ok" => Real::Ok(rest.split(' ').filter(|x| !x.is_empty()).map(|x| x.to_string()).collect()),
+        "err" => Real::Err(rest.to_string()),
+        "panic" => Real::Panic(rest.to_string()),
+        _ => return None,
+    })
+}
+
+/// The real preprocessor runs in a worker process (this executable with `C12_WORKER`), one answer line per program;
+/// a program that takes longer than the time limit (the expansion blow-up, see `expansion-explodes-…` in
+/// known_findings.jsonl) is recorded as not run, the worker is killed and a new one continues behind it.
+fn run_batch(all: &[Program], out: &mut Out, hist: &mut Hist) {
+    use std::io::{BufRead, BufReader};
+    use std::sync::mpsc;
+    use std::time::Duration;
+    let exe = std::env::current_exe().map(|e| e.display().to_string()).unwrap_or_else(|_| "harness".into());
+    let limit = Duration::from_secs(4);
+    let mut next = 0usize;
+    while next < all.len() {
+        let tmp = std::env::temp_dir().join(format!("c12-batch-{}-{}.txt", std::process::id(), next));
+        let text: String = all[next..].iter().map(|p| p.encode() + "\n").collect();
+        if std::fs::write(&tmp, text).is_err() {
+            break;
+        }
+        let child = std::process::Command::new("sh")
+            .arg("-c")
+            .arg(format!("ulimit -v 3000000; exec {} c12 --requests {}", exe, tmp.display()))
+            .env("C12_WORKER", "1")
+            .stdout(std::process::Stdio::piped())
+            .stderr(std::process::Stdio::null())
+            .spawn();
+        let mut child = match child {
+            Ok(c) => c,
+            Err(_) => {
+                // no worker: run in this process
+                for p in &all[next..] {
+                    judge(p, out, hist);
+                }
+                let _ = std::fs::remove_file(&tmp);
+                return;
+            }
+        };
+        let stdout = child.stdout.take().unwrap();
+        let (tx, rx) = mpsc::channel::<String>();
+        let reader = std::thread::spawn(move || {
+            for l in BufReader::new(stdout).lines() {
+                match l {
+                    Ok(l) => {
+                        if tx.send(l).is_err() {
+                            break;
+                        }
+                    }
+                    Err(_) => break,
+                }
+            }
+        });
+        let mut stalled = false;
+        while next < all.len() {
+            match rx.recv_timeout(limit) {
+                Ok(l) => {
+                    if let Some(r) = decode_real(&l) {
+                        judge_with(&all[next], Some(r), out, hist);
+                        next += 1;
+                    }
+                }
+                Err(mpsc::RecvTimeoutError::Timeout) => {
+                    stalled = true;
+                    break;
+                }
+                Err(mpsc::RecvTimeoutError::Disconnected) => {
+                    // the worker died (memory limit): the program it was working on is the culprit
+                    stalled = true;
+                    break;
+                }
+            }
+        }
+        let _ = child.kill();
+        let _ = child.wait();
+        let _ = reader.join();
+        let _ = std::fs::remove_file(&tmp);
+        if stalled && next < all.len() {
+            hist.add("not-run:expansion-explodes-without-persistent-paint(time-or-memory-limit)");
+            if std::env::var("C12_TRACE").is_ok() {
+                eprintln!("EXPLODES {}", all[next].encode());
+            }
+            next += 1;
+        }
+    }
 }
